@@ -23,6 +23,23 @@ def withInner (t : Ty) (i : IntTy) : Ty :=
 
 def deeper (a b : Ty) : Ty := if b.depth > a.depth then b else a
 
+/-- `scaled_integer<nest<T>, power<e>>` with the wrappers between the scaled layer and the integer removed -/
+def bareSc (t : Ty) : Ty :=
+  match t with
+  | .sc r e x => (match innerTy r with | some i => .sc (.int i) e x | none => t)
+  | o => (match innerTy o with | some i => .int i | none => o)
+
+def expOf : Ty → Int
+  | .sc _ e _ => e
+  | _ => 0
+
+/-- a result over bare representations put back into the nest `shape` -/
+def rewrapSc (shape : Ty) (v : Num) : Num :=
+  match v.1, shape with
+  | .sc (.int t) e x, .sc r _ _ => (.sc (withInner r t) e x, v.2)
+  | .int t, s => (withInner s t, v.2)
+  | _, _ => v
+
 def parseUnOp : String → Option Layered.UnOp
   | "neg" => some .neg | "not" => some .bnot | "pos" => some .pos | _ => none
 
@@ -93,6 +110,64 @@ def checkC12 (toks : List String) (res : String) : Option Verdict :=
       let t : Int := if q < 0 then -((-q).floor) else q.floor
       if a.inRange t then some (res == showNum (L, t)) else none
     some { model := m, spec := spec, branch := "asge/" ++ toks[1]! ++ (if ea != eb then "/mixed" else "/same"), nontrivial := spec.isSome }
+  | ["bine", op, tl, tr, l, r] => do
+    -- binary operators between scaled nests with different exponents.  Oracle 1: the same expression on
+    -- scaled_integer over the bare built-in representations (the model's built-in branch), re-wrapped.
+    -- Oracle 2 (independent of the model): the exact value at the documented exponent whenever the aligned
+    -- operands and the result fit (C01 / C02)
+    let op ← parseBinOp op; let L ← parseTy tl; let R ← parseTy tr; let l ← l.toInt?; let r ← r.toInt?
+    let a ← innerTy L; let b ← innerTy R
+    let m := showRes showNum (Layered.bin op (L, l) (R, r))
+    let bare := Layered.bin op (bareSc L, l) (bareSc R, r)
+    let want : Option String := match bare with
+      | .ill _ => none
+      | o => some (showRes showNum (o.map (rewrapSc (deeper L R))))
+    let ea := expOf L; let eb := expOf R
+    let T := usualArith a b
+    let pw (k : Int) : Int := (2 : Int) ^ k.toNat
+    let conv := T.wrap l == l && T.wrap r == r
+    let exact : Option (Int × Int) := match op with
+      | .add | .sub =>
+        let c := min ea eb
+        let al := l * pw (ea - c); let ar := r * pw (eb - c)
+        let e := if op == .add then al + ar else al - ar
+        if (promote a).inRange al && (promote b).inRange ar && T.inRange al && T.inRange ar && T.inRange e then some (c, e) else none
+      | .mul => if conv && T.inRange (l * r) then some (ea + eb, l * r) else none
+      | .div => if r != 0 && conv && !(T.signed && l == T.lowest && r == -1) then some (ea - eb, l.tdiv r) else none
+      | .mod => if r != 0 && conv && !(T.signed && l == T.lowest && r == -1) then some (ea, l.tmod r) else none
+      | _ => none
+    let okExact : Bool := match exact with
+      | none => true
+      | some (e, v) => (match res.splitOn ":" with
+        | [ty, x] => (match parseTy ty, x.toInt? with
+          | some (.sc _ e' _), some x => e' == e && x == v
+          | _, _ => false)
+        | _ => false)
+    let spec : Option Bool := match want with
+      | none => none
+      | some w => some (w == res && okExact)
+    some { model := m, spec := spec, branch := "bine/" ++ toks[1]! ++ (if ea != eb then "/mixed" else "/same") ++ (if exact.isSome then "" else "/nofit"),
+           nontrivial := exact.isSome }
+  | ["cmpe", op, tl, tr, l, r] => do
+    let op ← parseCmpOp op; let L ← parseTy tl; let R ← parseTy tr; let l ← l.toInt?; let r ← r.toInt?
+    let a ← innerTy L; let b ← innerTy R
+    let m := showRes showBool (Layered.cmp op (L, l) (R, r))
+    let bare := Layered.cmp op (bareSc L, l) (bareSc R, r)
+    let ea := expOf L; let eb := expOf R
+    let c := min ea eb
+    let pw (k : Int) : Int := (2 : Int) ^ k.toNat
+    let al := l * pw (ea - c); let ar := r * pw (eb - c)
+    let PL := promote a; let PR := promote b
+    let fits := PL.inRange al && PR.inRange ar
+    let byValue := a.signed == b.signed || (l ≥ 0 && r ≥ 0)
+    -- by value (the mathematical order) when the aligned operands fit and no signed/unsigned conversion interferes
+    let wantV : Bool := match op with
+      | .lt => decide (al < ar) | .le => decide (al ≤ ar) | .gt => decide (al > ar) | .ge => decide (al ≥ ar)
+      | .eq => decide (al = ar) | .ne => decide (al ≠ ar)
+    let spec : Option Bool := match bare with
+      | .ill _ => none
+      | o => some (showRes showBool o == res && (!(fits && byValue) || res == showBool wantV))
+    some { model := m, spec := spec, branch := "cmpe/" ++ toks[1]! ++ (if ea != eb then "/mixed" else "/same"), nontrivial := fits }
   | ["inc", kind, tl, l] => do
     let L ← parseTy tl; let l ← l.toInt?
     let a ← innerTy L
